@@ -26,9 +26,6 @@ Variable L : nat.
 Hypothesis Lpos : 0 < L.
 (* every digest has the key size *)
 Hypothesis H_len : forall l o d b x, length (H l o d b x) = KS.
-(* collision freedom, jointly in the tree parameters and the data *)
-Hypothesis H_inj : forall l o d b x o' d' b' x',
-  H l o d b x = H l o' d' b' x' -> o = o' /\ d = d' /\ b = b' /\ x = x'.
 
 (* the layout of a content: full leaves and a shorter, possibly empty, tail *)
 Definition shape (lt : list (list N)) : Prop :=
@@ -73,16 +70,43 @@ Proof. reflexivity. Qed.
 Lemma keys_length : forall lt i, length (keys_of_leaves H L i lt) = length lt.
 Proof. induction lt as [|d lt IH]; intros i; cbn; [reflexivity|]. now rewrite IH. Qed.
 
-(* hash verification: a blob accepted for the honest key of d is d *)
-Lemma verify_honest : forall n i d d',
+(* The hash inputs an honest writer feeds for the leaves lv: one per leaf, with the writer's
+   parameter convention, and the root over the leaf keys. *)
+Definition honest_in (lv : list (list N)) (o d : N) (b : bool) (x : list N) : Prop :=
+  (d = 1%N /\ o = 0%N /\ b = true /\ x = concat (keys_of_leaves H L 0 lv)) \/
+  (d = 0%N /\ exists i, nth_error lv i = Some x /\
+      ((length x = L /\ o = N.of_nat (S i) /\ b = false) \/ (length x <> L /\ o = N.of_nat i /\ b = true))).
+
+(* Collision freedom as the theorems need it: no input whatsoever collides with one of the honest
+   inputs of the object (jointly in tree parameters and data).  Unlike global injectivity this
+   is satisfiable by functions with 64-byte digests. *)
+Definition nocoll (lv : list (list N)) : Prop :=
+  forall o d b x o' d' b' x', honest_in lv o d b x ->
+    H (LN L) o d b x = H (LN L) o' d' b' x' -> o = o' /\ d = d' /\ b = b' /\ x = x'.
+
+Lemma honest_leaf_in : forall lv i d, nth_error lv i = Some d ->
+  honest_in lv (if Nat.eqb (length d) L then N.of_nat (S i) else N.of_nat i) 0%N
+            (negb (Nat.eqb (length d) L)) d.
+Proof.
+  intros lv i d Hn. right. split; [reflexivity|]. exists i. split; [exact Hn|].
+  destruct (Nat.eqb_spec (length d) L); [left|right]; auto.
+Qed.
+
+Lemma hkey_as_H : forall i d,
+  hkey i d = H (LN L) (if Nat.eqb (length d) L then N.of_nat (S i) else N.of_nat i) 0%N
+               (negb (Nat.eqb (length d) L)) d.
+Proof. intros. unfold hkey, full_key, part_key. destruct (Nat.eqb (length d) L); reflexivity. Qed.
+
+(* hash verification: a blob accepted for the honest key of leaf i is that leaf *)
+Lemma verify_honest : forall lv n i d d', nocoll lv -> nth_error lv i = Some d ->
   (length d <> L -> S i = n) ->
   verify_leaf H L n i (hkey i d) d' = true -> d' = d.
 Proof.
-  intros n i d d' Hlast Hv. unfold verify_leaf, hkey in Hv.
+  intros lv n i d d' Hnc Hn Hlast Hv. unfold verify_leaf in Hv. rewrite hkey_as_H in Hv.
   destruct (Nat.eqb (S i) n && negb (Nat.eqb (length d') L)) eqn:E;
-  destruct (Nat.eqb_spec (length d) L) as [Ed|Ed];
-  apply bytes_eqb_eq in Hv; unfold full_key, part_key in Hv; apply H_inj in Hv;
-  destruct Hv as [Ho [_ [Hb Hx]]]; try discriminate; auto.
+  apply bytes_eqb_eq in Hv; unfold full_key, part_key in Hv;
+  apply (Hnc _ _ _ _ _ _ _ _ (honest_leaf_in lv i d Hn)) in Hv;
+  destruct Hv as [Ho [_ [Hb Hx]]]; auto.
 Qed.
 
 (* and the honest blob is accepted *)
@@ -149,21 +173,22 @@ Qed.
 
 (* whatever the store holds: if the root blob is accepted for the key of content c, the key list
    is the honest one *)
-Lemma leaves_for_hash_sound : forall s c ks,
+Lemma leaves_for_hash_sound : forall s c ks, nocoll (split_leaves L c) ->
   leaves_for_hash H L (tree_key H L c) s = Some ks -> ks = keys_of_leaves H L 0 (split_leaves L c).
 Proof.
-  intros s c ks Hl. unfold leaves_for_hash in Hl.
+  intros s c ks Hnc Hl. unfold leaves_for_hash in Hl.
   destruct (lookup (tree_key H L c) s) as [b|]; [|discriminate].
   destruct (Nat.ltb (length b) KS); [discriminate|].
   destruct (chunk_keys _ _) as [ks'|] eqn:Ec; [|discriminate].
   destruct (bytes_eqb (root_of H L ks') _ && _) eqn:Eb; [|discriminate].
   inversion Hl; subst ks'. apply andb_prop in Eb. destruct Eb as [E1 E2].
   apply bytes_eqb_eq in E1. apply bytes_eqb_eq in E2.
-  assert (Er : root_of H L ks = tree_key H L c) by congruence.
-  unfold tree_key, root_of in Er. apply H_inj in Er. destruct Er as [_ [_ [_ Ex]]].
-  apply concat_inj_len; auto.
-  - apply chunk_keys_spec in Ec. tauto.
+  assert (Er : tree_key H L c = root_of H L ks) by congruence.
+  unfold tree_key, root_of in Er.
+  apply (Hnc 0%N 1%N true) in Er; [|left; auto]. destruct Er as [_ [_ [_ Ex]]].
+  symmetry. apply concat_inj_len; auto.
   - apply hkeys_len.
+  - apply chunk_keys_spec in Ec. tauto.
 Qed.
 
 (* a store holds an object when its root blob and leaf blobs are there *)
